@@ -43,6 +43,9 @@ KIND_NAME = {"S": "star", "Q": "question", "C": "class", "N": "negclass-bang",
 NAME_ALPHA = ".tx*"
 PREFIX = (".", "t", "x", ".")
 FILES = ["a1.o", "b1.o"]
+# `_start` lives in a 4-byte section `.start` that a pattern may legitimately match (`*`, `.*`,
+# `??????`): its content reads as an id with file number 0xFF and is skipped.
+START_CODE = b"\xc3\xcc\xcc\xff"
 FILE_PATTERNS = ["a*.o", "[b]*", "a1.o", "?1.o"]
 
 TIERS = {
@@ -52,8 +55,10 @@ TIERS = {
     # ld_cap: maximum number of GNU ld links of the main round (a cap that is hit is reported).
     "quick": dict(L=5, PL=3, T=4, PT=3, Q=(1, 1), K=(2, 2), ld_class="window", ld_cap=1500,
                   validate=40),
-    "thorough": dict(L=6, PL=4, T=5, PT=4, Q=(2, 2), K=(3, 3), ld_class="fine4", ld_cap=9000,
-                     validate=150),
+    # thin5: of the 59,049 five-token strings only those with at most two non-literal tokens are
+    # kept (12,393); every shorter string and every prefixed string is kept.
+    "thorough": dict(L=6, PL=4, T=5, PT=4, Q=(2, 2), K=(3, 3), ld_class="fine4", ld_cap=6000,
+                     validate=100, thin5=2),
 }
 
 # --------------------------------------------------------------------------------------------
@@ -79,11 +84,15 @@ def token_strings(lo, hi):
         yield from itertools.product(TOKENS, repeat=n)
 
 
-def pattern_set(T, PT):
+def pattern_set(T, PT, thin5=None):
     """All token strings of length 1..T, and PREFIX + all token strings of length 0..PT; as a list
-    of token tuples without duplicates, in enumeration order."""
+    of token tuples without duplicates, in enumeration order. thin5=k drops the 5-token strings
+    with more than k non-literal tokens."""
     out, seen = [], set()
     for toks in itertools.chain(token_strings(1, T), (PREFIX + t for t in token_strings(0, PT))):
+        if thin5 is not None and len(toks) == 5 and toks[:4] != PREFIX and \
+                sum(1 for x in toks if KIND[x] != "L") > thin5:
+            continue
         if toks not in seen:
             seen.add(toks)
             out.append(toks)
@@ -233,7 +242,8 @@ def script_text(m, sink):
 def write_objects(base, names):
     for f, fname in enumerate(FILES):
         secs = [(nm, struct.pack("<I", (f << 24) | (i + 1))) for i, nm in enumerate(names)]
-        data = minielf.write_object(secs, start_in=b".start" if f == 0 else None)
+        data = minielf.write_object(secs, start_in=b".start" if f == 0 else None,
+                                    start_code=START_CODE)
         with open(os.path.join(base, fname), "wb") as fh:
             fh.write(data)
 
@@ -254,6 +264,8 @@ def read_out(path, n, nfiles):
             mask = 0
             for (v,) in struct.iter_unpack("<I", content):
                 f, i = v >> 24, (v & 0xFFFFFF) - 1
+                if v == 0xFFCCCCC3:          # START_CODE: the `.start` section
+                    continue
                 if f >= nfiles or not 0 <= i < n:
                     return f"{nm.decode()} holds unknown id {v:#x}"
                 bit = 1 << (f * n + i)
@@ -311,7 +323,7 @@ def make_members(t, names):
         members.append(dict(fam=fam, toks=[tuple(t) for t in toks_list],
                             pats=[text(t) for t in toks_list], fp=fp, keep=keep, gc=gc))
 
-    singles = pattern_set(t["T"], t["PT"])
+    singles = pattern_set(t["T"], t["PT"], t.get("thin5"))
     for toks in singles:
         add("single", [toks])
     G["names"] = names
@@ -484,6 +496,8 @@ def main():
         t0 = time.time()
         res = wildrun.pmap(wild_job, range(len(members)), chunksize=16)
         timing["wild_s"] = round(time.time() - t0, 1)
+        print(f"c15: {len(members)} members x {n} names; wild phase {timing['wild_s']}s",
+              file=sys.stderr)
         W = {idx: (rc, msg, got, exp) for idx, rc, msg, got, exp in res}
         full = {i: (1 << (n * len(member_files(m)))) - 1 for i, m in enumerate(members)}
 
@@ -517,6 +531,8 @@ def main():
         vsub = chosen[::step]
         run_ld([(i, "wild") for i in vsub])
         timing["gnu_ld_s"] = round(time.time() - t0, 1)
+        print(f"c15: GNU ld on {len(chosen)} of {len(cells)} cells (+{len(vsub)} sink checks) "
+              f"{timing['gnu_ld_s']}s", file=sys.stderr)
         for i in vsub:
             a, b = LD[(i, "ld")], LD[(i, "wild")]
             if (a[0] == 0) != (b[0] == 0) or a[2] != b[2]:
@@ -564,34 +580,44 @@ def main():
             return out, divergent
 
         verdicts, divergent = judge()
-        # every key that is reported has a member on which GNU ld ran with the *identical* script
+        # Every key that is reported has a member on which GNU ld ran with the *identical* script
+        # (wild's sink) and that still violates. Members of a key for which no such member can be
+        # found are not reported (undecided, counted).
         t0 = time.time()
-        for _round in range(3):
-            need = []
+        tried = set()
+        for _round in range(6):
             bykey = {}
             for i, (v, _dec, _ran) in verdicts.items():
                 if v:
                     bykey.setdefault(v[0], []).append(i)
+            need = []
             for key, idxs in bykey.items():
                 if not any((i, "wild") in LD for i in idxs):
-                    pref = [i for i in idxs if (i, "ld") in LD] or idxs
-                    need.append((pref[0], "wild"))
+                    cand = [i for i in idxs if (i, "ld") in LD] + \
+                           [i for i in idxs if (i, "ld") not in LD]
+                    need += [(i, "wild") for i in cand[:6] if i not in tried]
             if not need:
                 break
+            tried.update(i for i, _s in need)
             run_ld(need)
             verdicts, divergent = judge()
-        timing["confirm_s"] = round(time.time() - t0, 1)
-
-        # ---- report
         bykey = {}
         for i, (v, dec, ran) in verdicts.items():
             if v:
                 bykey.setdefault(v[0], []).append(i)
+        unconfirmed = {k: len(v) for k, v in bykey.items()
+                       if not any((i, "wild") in LD for i in v)}
+        for key in unconfirmed:
+            for i in bykey.pop(key):
+                verdicts[i] = (None, 0, verdicts[i][2])
+        timing["confirm_s"] = round(time.time() - t0, 1)
+        print(f"c15: confirmation {timing['confirm_s']}s, {len(bykey)} keys, "
+              f"{len(unconfirmed)} unconfirmed", file=sys.stderr)
+
+        # ---- report
         for key in sorted(bykey):
             idxs = bykey[key]
             confirmed = [i for i in idxs if (i, "wild") in LD]
-            if not confirmed:
-                chk.machinery(f"key {key} has no member confirmed by GNU ld on the same script")
             first = confirmed[0]
             for i in [first] + [j for j in idxs if j != first]:
                 m = members[i]
@@ -676,6 +702,7 @@ def main():
         "pattern_classes_where_gnu_ld_contradicts_fnmatch": len(divergent),
         "sink_validation_members": len(vsub),
         "violating_members_by_key": key_counts,
+        "keys_dropped_unconfirmed_by_gnu_ld": unconfirmed,
         "timing": timing,
     }
     chk.assumptions = [
